@@ -152,3 +152,76 @@ func HarnessTermination() {
 	verif.Quiesce()
 	verif.Reach("termination-done")
 }
+
+// HarnessReusedChannelID: subscription A ends with a connection loss; after the
+// reconnect subscription B is given the same channel id by the (new) server
+// connection; A's context is cancelled late. B still receives its values and is
+// closed by the server's close notification.
+func HarnessReusedChannelID() {
+	l := verif.ListenWS()
+	aEstablished := make(chan struct{})
+	go func() {
+		verif.Daemon()
+		for round := 0; ; round++ {
+			pc := l.Accept()
+			for {
+				b, ok := pc.Recv()
+				if !ok {
+					break
+				}
+				var r wireReq
+				if json.Unmarshal(b, &r) != nil || r.Method != "NS.Sub" {
+					continue
+				}
+				rb, _ := json.Marshal(map[string]interface{}{"jsonrpc": "2.0", "id": r.ID, "result": 7})
+				pc.Send(rb)
+				if round == 0 {
+					pc.Send(chVal(7, 1))
+					<-aEstablished // (a reset must not destroy the unread response)
+					pc.Abort()
+					break
+				}
+				// second connection: wait for the harness to cancel A's context, then stream
+				verif.Quiesce2()
+				pc.Send(chVal(7, 21))
+				pc.Send(chVal(7, 22))
+				pc.Send(chClose(7))
+			}
+		}
+	}()
+	var c C
+	closer, err := jsonrpc.NewMergeClient(context.Background(), l.URL(), "NS", []interface{}{&c}, nil,
+		jsonrpc.WithReconnectBackoff(time.Millisecond, 5*time.Millisecond))
+	verif.Assert(err == nil, "client-created")
+	ctxA, cancelA := context.WithCancel(context.Background())
+	chA, errA := c.Sub(ctxA)
+	verif.Assert(errA == nil && chA != nil, "subscribe-a")
+	close(aEstablished)
+	closedA := 0
+	go func() {
+		for range chA {
+		}
+		closedA++
+	}()
+	verif.Quiesce() // connection lost, A closed, client reconnected
+	verif.Assert(closedA == 1, "first-subscription-closed-by-connection-loss")
+	chB, errB := c.Sub(context.Background())
+	verif.Assert(errB == nil && chB != nil, "subscribe-b")
+	var gotB []int64
+	closedB := 0
+	go func() {
+		for v := range chB {
+			gotB = append(gotB, v)
+		}
+		closedB++
+	}()
+	cancelA() // late cancel of the old subscription's context
+	verif.Quiesce()
+	verif.Release2()
+	verif.Quiesce()
+	verif.Assert(closedB == 1, "second-subscription-closed-by-its-close-notification")
+	verif.Assert(len(gotB) == 2 && gotB[0] == 21 && gotB[1] == 22, "second-subscription-receives-its-values")
+	closer()
+	verif.Quiesce()
+	verif.Reach("reused-channel-id-done")
+}
